@@ -340,6 +340,30 @@ func c08(run *ev.Run, tier string) {
 		_ = os.WriteFile(filepath.Join(real, "linked.conf"), []byte("conf\n"), 0o644)
 		_ = os.Symlink(real, filepath.Join(dir, "linked-workspace"))
 		via := filepath.Join(dir, "linked-workspace", "linked.conf")
+		// rpm-only documentation entries whose source is itself a symbolic link
+		// (LICENSE -> LICENSE.md) are flagged regular files
+		_ = os.WriteFile(filepath.Join(real, "LICENSE.md"), []byte("licence\n"), 0o644)
+		_ = os.Symlink("LICENSE.md", filepath.Join(real, "LICENSE"))
+		for _, t := range []string{"doc", "licence", "license", "readme"} {
+			s := base()
+			lsrc := filepath.Join(real, "LICENSE")
+			s.Contents = append(s.Contents, &gen.Content{Type: t, Src: lsrc, Dst: "/usr/share/doc/typ/LICENSE", Exp: []gen.Expect{{Dst: "/usr/share/doc/typ/LICENSE", Kind: "file", Src: filepath.Join(real, "LICENSE.md"), Node: node}}})
+			cs := mkCase(s)
+			run.Case("rpm-only-type-with-symlinked-source|"+t, true)
+			res := buildYAML(s.YAML(), "rpm")
+			if res.Err != nil || res.Panic != "" {
+				run.Violate("C08/rpm/build-error", map[string]any{"source": "symbolic link", "type": t, "error": fmt.Sprint(res.Err, res.Panic)})
+				continue
+			}
+			p := dec.Decode("rpm", res.Bytes, false)
+			if e := p.Find("/usr/share/doc/typ/LICENSE"); e == nil || e.Kind != "file" {
+				run.Violate("C08/rpm/documentation-entry-not-shipped-as-file/symlinked-source", map[string]any{"type": t, "found": e != nil})
+				continue
+			}
+			for _, pr := range typingProblems("rpm", p, cs.Plan("rpm"), &checked) {
+				run.Violate("C08/rpm/"+pr.kind, map[string]any{"source": "symbolic link", "type": t, "detail": pr.detail})
+			}
+		}
 		for _, t := range []string{"config", "config|noreplace", "config|missingok"} {
 			for _, srcSpelling := range []string{via, filepath.Join(dir, "linked-workspace") + "/*.conf"} {
 				s := base()
